@@ -153,6 +153,31 @@ Proof.
   split; [exact L|]. cbn. lia.
 Qed.
 
+(* the value of one system pass, spelled out *)
+Lemma sys_step_inv tl dl (f : list A -> res (list A)) x x' b e :
+  sys_step O tl dl f x = Ok (x', b, e) ->
+  exists fv maxres J jev dx,
+    f x = Ok fv /\ norm_inf O fv = Ok maxres /\ jacobian O f x (emb O dl) = Ok (J, jev) /\
+    solve_basic J fv = Ok dx /\ length dx = length x /\
+    x' = zipw sub x dx /\ b = leb maxres tl /\ e = x :: jev.
+Proof.
+  unfold sys_step. intros H. inv_bind H. injection H as <- <- <-. destruct x2 as [J jev].
+  unfold vsub_assign, vsub in E3. destruct (Nat.eqb_spec (length x) (length x3)) as [L|]; [|discriminate].
+  injection E3 as <-. exists x0, x1, J, jev, x3. repeat split; auto.
+Qed.
+
+Lemma sysjac_step_inv tl (f : list A -> res (list A)) jac x x' b e :
+  sysjac_step O tl f jac x = Ok (x', b, e) ->
+  exists fv maxres J dx,
+    f x = Ok fv /\ norm_inf O fv = Ok maxres /\ jac x = Ok J /\
+    solve_basic J fv = Ok dx /\ length dx = length x /\
+    x' = zipw sub x dx /\ b = leb maxres tl.
+Proof.
+  unfold sysjac_step. intros H. inv_bind H. injection H as <- <- _.
+  unfold vsub_assign, vsub in E3. destruct (Nat.eqb_spec (length x) (length x3)) as [L|]; [|discriminate].
+  injection E3 as <-. exists x0, x1, x2, x3. repeat split; auto.
+Qed.
+
 (* ---- supplied-Jacobian pass: one call of func and one of jac, both at the iterate ---- *)
 Lemma sysjac_step_calls tl (f : list A -> res (list A)) jac x x' b e :
   sysjac_step O tl f jac x = Ok (x', b, e) -> e = [CF x; CJ x].
